@@ -737,6 +737,21 @@ func (e *c08Env) genLend(bad bool) {
 	asset := e.base[e.rng.Intn(len(e.base))]
 	pools := e.poolsOf(asset)
 	pool := pools[e.rng.Intn(len(pools))]
+	if e.rng.Chance(25) {
+		// same asset in the other pool as an existing lend of this user: spare cTokens in the wallet (see c08CorpusTwinLends)
+		for _, l := range e.app.LendKeeper.GetAllLend(e.ctx) {
+			if l.Owner == usr.addr.String() && len(e.poolsOf(l.AssetID)) > 1 {
+				asset = l.AssetID
+				for _, p := range e.poolsOf(asset) {
+					if p != l.PoolID {
+						pool = p
+					}
+				}
+				e.tr.Count("gen:lend:twin")
+				break
+			}
+		}
+	}
 	amt := e.rint(1_000_000, 50_000_000_000)
 	if e.rng.Chance(15) {
 		amt = e.rint(1, 2000)
@@ -933,6 +948,9 @@ func (e *c08Env) genBorrow(bad bool, alternate bool) {
 		} else {
 			amtIn = sdk.NewInt(1)
 		}
+	}
+	if pair.IsInterPool && !bad && amtIn.GT(sdk.NewInt(4_000_000_000)) && e.rng.Chance(80) {
+		amtIn = e.rint(1_000_000, 4_000_000_000) // keep the bridged transit quantity within what the lending pool usually holds
 	}
 	// existing borrow on this pair ⇒ DepositDraw: the LTV check sees the whole position
 	already := sdk.ZeroInt()
@@ -1251,6 +1269,32 @@ func c08CorpusHandover(t *testing.T, tr *Trace, rng *Rng) {
 	e.opCalc(u2)
 }
 
+// c08CorpusTwinLends — directed coverage (no defect): cTokens of one asset are fungible across pools, so a user with lends of
+// the same asset in two pools holds spare cTokens; the availableToBorrow guards are then the only thing that keeps pledged
+// collateral in place (without spare cTokens the bank transfer of the cTokens fails first and hides a missing guard).
+func c08CorpusTwinLends(t *testing.T, tr *Trace, rng *Rng) {
+	e := c08Setup(t, tr, rng, 0)
+	e.cfgLines()
+	tr.Count("corpus")
+	a1, a2 := e.base[0], e.base[1]
+	u1, u2 := e.users[0], e.users[1]
+	n := func(x int64) sdk.Int { return sdk.NewInt(x) }
+	e.opLend(u1, a1, e.denomOf[a1], n(1_000_000_000), 1, e.appOK) // lend 1 (pool 1)
+	e.opLend(u1, a1, e.denomOf[a1], n(1_000_000_000), 2, e.appOK) // lend 2 (pool 2): 2e9 cA1 in the wallet
+	e.opLend(u2, a2, e.denomOf[a2], n(5_000_000_000), 1, e.appOK) // lend 3
+	e.opBorrow(u1, 1, 3, false, sdk.Coin{Denom: e.cDenom(a1), Amount: n(1_000_000_000)}, e.coin(a2, n(100_000_000)))
+	e.opWithdraw(u1, 1, e.denomOf[a1], n(1))             // everything is pledged: must be refused
+	e.opWithdraw(u1, 1, e.denomOf[a1], n(1_000_000_000)) // == AmountIn, != availableToBorrow: must be refused
+	e.opCloseLend(u1, 1)                                 // borrow open: must be refused
+	e.opDepositBorrow(u1, 1, sdk.Coin{Denom: e.cDenom(a1), Amount: n(1)}) // nothing left to pledge although the wallet has cA1
+	e.opBorrow(u1, 1, 4, false, sdk.Coin{Denom: e.cDenom(a1), Amount: n(1)}, e.coin(e.base[2], n(1_000_000)))
+	e.opRepay(u1, 1, e.coin(a2, n(40_000_000)))
+	e.opWithdraw(u1, 1, e.denomOf[a1], n(1))
+	e.opCloseBorrow(u1, 1)
+	e.opWithdraw(u1, 1, e.denomOf[a1], n(400_000_000))
+	e.opCloseLend(u1, 1)
+}
+
 // ---------------------------------------------------------------------------------------------- test
 
 func TestC08(t *testing.T) {
@@ -1259,6 +1303,7 @@ func TestC08(t *testing.T) {
 	rng := NewRng(seed())
 	c08CorpusForeignPair(t, tr, rng)
 	c08CorpusHandover(t, tr, rng)
+	c08CorpusTwinLends(t, tr, rng)
 	seqs := scale(24, 300)
 	maxOps := scale(90, 160)
 	for s := 0; s < seqs; s++ {
